@@ -505,7 +505,10 @@ namespace avel {
 
     [[nodiscard]]
     AVEL_FINL vec8x64f negate(mask8x64f m, vec8x64f v) {
-        return vec8x64f{_mm512_mask_sub_pd(decay(v), decay(m), _mm512_setzero_pd(), decay(v))};
+        // Flip the sign bit of the selected lanes (0 - v would keep the sign of zeros and NaNs)
+        auto bits = _mm512_castpd_si512(decay(v));
+        auto flipped = _mm512_mask_xor_epi64(bits, decay(m), bits, _mm512_set1_epi64(0x8000000000000000ull));
+        return vec8x64f{_mm512_castsi512_pd(flipped)};
     }
 
     [[nodiscard]]
